@@ -15,7 +15,8 @@ RULE = ("directories (BMC-style names <timestamp>_<ENTRYID>) mixing serviceable,
         "as 8 hex digits in upper/lower case with/without 0x; --bmc-id for every PEL and absent ids; -i for every PEL, absent "
         "ids, lower case; --src with every-length substrings of real reference codes and absent strings; --src-exclude with "
         "0..all codes listed.  peltool main() in-process, no selection option; results compared with the directory model by "
-        "set equality / document equality.  Non-trivial: look-up whose expected result is non-empty or that has near-misses.")
+        "set equality / document equality; ids of existing logs spelled leniently (0x inside or doubled, _, sign, blanks, tab) "
+        "must display nothing.  Non-trivial: look-up whose expected result is non-empty or that has near-misses.")
 ASSUMPTIONS = ["one file per entry id, the id occurs in no other file name, no .json by-products in the directory",
                "no reference code in a directory is a substring of another (exclusion is a text search in the file)",
                "PELs without a primary SRC have no reference code and are not listed by --src / --src-exclude",
